@@ -4,8 +4,8 @@
 package w18
 
 import (
-	"reflect"
 	"fmt"
+	"reflect"
 	"sort"
 	"strings"
 
